@@ -105,6 +105,10 @@ structure DfsOk (succ : Nat → List Nat) (roots : List Nat) (seen : List Nat) (
   closed : ∀ x ∈ entersOf new, ∀ m ∈ succ x, m ∈ seen'
   reach : ∀ x ∈ entersOf new, ∃ r ∈ roots, Reach succ r x
   nested : ∀ x ∈ entersOf new, ∃ a b c, new = a ++ (TEv.enter x :: (b ++ (TEv.exit x :: c)))
+  /-- post-order: a successor of a visited node was visited before the walk, or is left before the node is
+      left, or is an ancestor of the node on the stack (then it reaches the node: a cycle) -/
+  post : ∀ x ∈ entersOf new, ∀ m ∈ succ x,
+    m ∈ seen ∨ Reach succ m x ∨ ∃ p q, exitsOf new = p ++ x :: q ∧ m ∈ p
 
 /-- `nested` in the shape Lean gives to the unparenthesised `a ++ enter x :: b ++ exit x :: c`,
     i.e. `(a ++ enter x :: b) ++ exit x :: c` (the same list) -/
@@ -126,6 +130,7 @@ theorem DfsOk.nil (succ : Nat → List Nat) (seen : List Nat) : DfsOk succ [] se
   closed := by simp [entersOf]
   reach := by simp [entersOf]
   nested := by simp [entersOf]
+  post := by simp [entersOf]
 
 /-- a root that is already visited: nothing happens -/
 theorem DfsOk.skip (succ : Nat → List Nat) (seen : List Nat) (n : Nat) (hn : n ∈ seen) :
@@ -138,6 +143,7 @@ theorem DfsOk.skip (succ : Nat → List Nat) (seen : List Nat) (n : Nat) (hn : n
   closed := by simp [entersOf]
   reach := by simp [entersOf]
   nested := by simp [entersOf]
+  post := by simp [entersOf]
 
 /-- sequential composition of two walks -/
 theorem DfsOk.append {succ : Nat → List Nat} {r1 r2 seen seen1 seen2 : List Nat} {new1 new2 : List TEv}
@@ -188,6 +194,24 @@ theorem DfsOk.append {succ : Nat → List Nat} {r1 r2 seen seen1 seen2 : List Na
       exact ⟨a, b, c ++ new2, by rw [e]; simp⟩
     · obtain ⟨a, b, c, e⟩ := h2.nested x hx
       exact ⟨new1 ++ a, b, c, by rw [e]; simp⟩
+  post := by
+    intro x hx m hm
+    rw [entersOf_append, List.mem_append] at hx
+    rw [exitsOf_append]
+    rcases hx with hx | hx
+    · rcases h1.post x hx m hm with h | h | ⟨p, q, e, hp⟩
+      · exact Or.inl h
+      · exact Or.inr (Or.inl h)
+      · exact Or.inr (Or.inr ⟨p, q ++ exitsOf new2, by rw [e]; simp, hp⟩)
+    · rcases h2.post x hx m hm with h | h | ⟨p, q, e, hp⟩
+      · rcases (h1.seen_iff m).1 h with h | h
+        · exact Or.inl h
+        · have hx' : x ∈ exitsOf new2 := h2.exits_perm.mem_iff.2 hx
+          obtain ⟨p, q, e⟩ := List.append_of_mem hx'
+          exact Or.inr (Or.inr ⟨exitsOf new1 ++ p, q, by rw [e]; simp,
+            List.mem_append_left _ (h1.exits_perm.mem_iff.2 h)⟩)
+      · exact Or.inr (Or.inl h)
+      · exact Or.inr (Or.inr ⟨exitsOf new1 ++ p, q, by rw [e]; simp, List.mem_append_right _ hp⟩)
 
 /-- a fresh node around the walk of its successors -/
 theorem DfsOk.wrap {succ : Nat → List Nat} {seen seen' : List Nat} {mid : List TEv} {n : Nat}
@@ -244,6 +268,23 @@ theorem DfsOk.wrap {succ : Nat → List Nat} {seen seen' : List Nat} {mid : List
     · exact ⟨[], mid, [], by simp⟩
     · obtain ⟨a, b, c, e⟩ := h.nested x hx
       exact ⟨TEv.enter n :: a, b, c ++ [TEv.exit n], by rw [e]; simp⟩
+  post := by
+    intro x hx m hm
+    rw [entersOf_wrap, List.mem_cons] at hx
+    rw [exitsOf_wrap]
+    rcases hx with rfl | hx
+    · rcases (h.seen_iff m).1 (h.roots_in m hm) with h' | h'
+      · rcases List.mem_cons.1 h' with rfl | h'
+        · exact Or.inr (Or.inl (Reach.refl _))
+        · exact Or.inl h'
+      · exact Or.inr (Or.inr ⟨exitsOf mid, [], rfl, h.exits_perm.mem_iff.2 h'⟩)
+    · rcases h.post x hx m hm with h' | h' | ⟨p, q, e, hp⟩
+      · rcases List.mem_cons.1 h' with rfl | h'
+        · obtain ⟨r, hr, hreach⟩ := h.reach x hx
+          exact Or.inr (Or.inl (Reach.step hr hreach))
+        · exact Or.inl h'
+      · exact Or.inr (Or.inl h')
+      · exact Or.inr (Or.inr ⟨p, q ++ [n], by rw [e]; simp, hp⟩)
 
 /-! ### the walk -/
 
